@@ -146,8 +146,9 @@ def evaluate(rp, rng):
     mapc = aff.argmax(-2)
     wrong = int((mapc != lab).sum())
     if wrong:
+        bucket = 'heavy-blur' if rp.get('blur', 0.0) >= 0.3 else 'light-blur'
         return ('%d of %d observations leave their true class after %d iterations (MAP != true class)'
-                % (wrong, mapc.size, rp['iterations'])), 'stable:map:%s' % name, None
+                % (wrong, mapc.size, rp['iterations'])), 'stable:map:%s:%s' % (name, bucket), None
     # fitted parameters point at the prototypes: always in the sense "closer to the own prototype than to any other";
     # within a small angle / distance once the start was sharp or EM had time to undo the blur
     tight = rp.get('blur', 0.0) == 0.0 or rp['iterations'] >= 10
